@@ -55,11 +55,34 @@ pub fn run(ctx: &Ctx) -> Report {
         if let Some((sig, d)) = check(w, o, debug) { acc.violation(sig, format!("{w}:{o}:{}", debug as u8), d); }
     });
     rep.absorb(r);
+    // the slice form `disassemble(&[u16])` must give, position by position, what `disassemble_line` gives (which the sweep above judges):
+    // slices of 0, 1, 255, 256, 257 words, one full memory image, and three images back to back (196608 words, every word thrice)
+    for (k, len) in [0usize, 1, 255, 256, 257, 65535, 65536, 65537, 3 * 65536].iter().enumerate() {
+        rep.acc.evals += 1; rep.acc.transitions += *len as u64; rep.acc.count("slice_cases", 1);
+        if let Some((sig, d)) = check_slice(*len) { rep.acc.violation(sig, format!("slice:{k}"), d); }
+    }
     rep.bound("words", Json::s("all 65536")); rep.bound("origins", Json::s("x0000 x01FF x3000 x8000 xFDFF"));
     rep.require(rep.acc.outcomes.len() >= 20, ".fill and instruction classes both seen for several opcodes");
     rep
 }
+const SLICE_LENS: [usize; 9] = [0, 1, 255, 256, 257, 65535, 65536, 65537, 3 * 65536];
+fn slice_word(i: usize, len: usize) -> u16 { if len > 65537 && i < 65536 { 0 } else { (i as u32).wrapping_mul(if len % 2 == 0 { 1 } else { 40503 }) as u16 } }
+fn check_slice(len: usize) -> Option<(String, String)> {
+    let words: Vec<u16> = (0..len).map(|i| slice_word(i, len)).collect();
+    match catch(|| lc3_ensemble::ast::asm::disassemble(&words)) {
+        Err(p) => Some((format!("panic:{}", panic_site(&p)), format!("disassemble of {len} words panicked: {p}"))),
+        Ok(v) => {
+            if v.len() != len { return Some(("slice:length".into(), format!("disassemble of {len} words returned {} statements", v.len()))); }
+            for (i, s) in v.iter().enumerate() {
+                let exp = disassemble_line(words[i]);
+                if format!("{s}") != format!("{exp}") { return Some(("slice:differs-from-line-form".into(), format!("disassemble of {len} words: position {i} (word x{:04X}) gives `{s}`, disassemble_line gives `{exp}`", words[i]))); }
+            }
+            None
+        }
+    }
+}
 pub fn replay(case: &str) -> Option<String> {
+    if let Some(k) = case.strip_prefix("slice:") { return check_slice(*SLICE_LENS.get(k.parse::<usize>().ok()?)?).map(|x| x.1); }
     let p: Vec<&str> = case.split(':').collect();
     check(p.first()?.parse().ok()?, p.get(1)?.parse().ok()?, p.get(2).map(|x| *x == "1").unwrap_or(false)).map(|x| x.1)
 }
